@@ -574,14 +574,14 @@ theorem offsetFree_q_mult {R : Registry} (m : Mode) {a b : Qty}
     (ha : R.isMultQ a = true) (hb : R.isMultQ b = true) :
     R.offsetFree m a (.q b) = .ok (a, .q b) := by
   unfold Registry.offsetFree
-  simp [ha, hb]
+  simp [Registry.operandsMult, ha, hb]
 
 /-- multiplicative operands pass through `offsetFree` unchanged (bare-number operand) -/
 theorem offsetFree_num_mult {R : Registry} (m : Mode) {a : Qty} (x : Rat)
     (ha : R.isMultQ a = true) :
     R.offsetFree m a (.num x) = .ok (a, .num x) := by
   unfold Registry.offsetFree
-  simp [ha]
+  simp [Registry.operandsMult, ha]
 
 theorem offsetFree_q_good {R : Registry} {S : String → Prop} (m : Mode)
     {a b : Qty} {ua ub da db : UC} {fa fb : Rat}
